@@ -3267,6 +3267,7 @@ struct RegistryT<
 	struct BackUp final {
 		CompoForks compoRequested;
 		OrthoForks orthoRequested;
+		CompoRemains compoRemains;
 	};
 
 	HFSM2_CONSTEXPR(14)	Prong activeSubState		(const StateID stateId)	  const noexcept;
@@ -3602,6 +3603,7 @@ void
 RegistryT<ArgsT<TG_, TSL_, TRL_, NCC_, NOC_, NOU_, TRO_ HFSM2_IF_SERIALIZATION(, NSB_) HFSM2_IF_PLANS(, NTC_), TTP_>>::backup(BackUp& copy) const noexcept {
 	overwriteWith(copy.compoRequested, compoRequested);
 	overwriteWith(copy.orthoRequested, orthoRequested);
+	overwriteWith(copy.compoRemains,   compoRemains);
 }
 
 template <typename TG_, typename TSL_, typename TRL_, Long NCC_, Long NOC_, Long NOU_, typename TRO_ HFSM2_IF_SERIALIZATION(, Long NSB_) HFSM2_IF_PLANS(, Long NTC_), typename TTP_>
@@ -3610,6 +3612,7 @@ void
 RegistryT<ArgsT<TG_, TSL_, TRL_, NCC_, NOC_, NOU_, TRO_ HFSM2_IF_SERIALIZATION(, NSB_) HFSM2_IF_PLANS(, NTC_), TTP_>>::restore(const BackUp& copy) noexcept {
 	overwriteWith(compoRequested, copy.compoRequested);
 	overwriteWith(orthoRequested, copy.orthoRequested);
+	overwriteWith(compoRemains,   copy.compoRemains);
 }
 
 template <typename TG_, typename TSL_, typename TRL_, Long NCC_, Long NOC_, Long NOU_, typename TRO_ HFSM2_IF_SERIALIZATION(, Long NSB_) HFSM2_IF_PLANS(, Long NTC_), typename TTP_>
@@ -3676,6 +3679,7 @@ struct RegistryT<
 
 	struct BackUp final {
 		CompoForks compoRequested;
+		CompoRemains compoRemains;
 	};
 
 	HFSM2_CONSTEXPR(14)	Prong activeSubState	(const StateID stateId)	  const noexcept;
@@ -3946,6 +3950,7 @@ HFSM2_CONSTEXPR(14)
 void
 RegistryT<ArgsT<TG_, TSL_, TRL_, NCC_, 0, 0, TRO_ HFSM2_IF_SERIALIZATION(, NSB_) HFSM2_IF_PLANS(, NTC_), TTP_>>::backup(BackUp& copy) const noexcept {
 	overwriteWith(copy.compoRequested, compoRequested);
+	overwriteWith(copy.compoRemains,   compoRemains);
 }
 
 template <typename TG_, typename TSL_, typename TRL_, Long NCC_, typename TRO_ HFSM2_IF_SERIALIZATION(, Long NSB_) HFSM2_IF_PLANS(, Long NTC_), typename TTP_>
@@ -3953,6 +3958,7 @@ HFSM2_CONSTEXPR(14)
 void
 RegistryT<ArgsT<TG_, TSL_, TRL_, NCC_, 0, 0, TRO_ HFSM2_IF_SERIALIZATION(, NSB_) HFSM2_IF_PLANS(, NTC_), TTP_>>::restore(const BackUp& copy) noexcept {
 	overwriteWith(compoRequested, copy.compoRequested);
+	overwriteWith(compoRemains,   copy.compoRemains);
 }
 
 template <typename TG_, typename TSL_, typename TRL_, Long NCC_, typename TRO_ HFSM2_IF_SERIALIZATION(, Long NSB_) HFSM2_IF_PLANS(, Long NTC_), typename TTP_>
